@@ -228,7 +228,7 @@ func c01NewMaterial(t *testing.T, envU *verifEnv, deniedKey *ecdsa.PrivateKey) *
 	m.foreignCA, err = x509.ParseCertificate(der)
 	c01Must(err)
 	st := envU.state
-	mainCA := st.caCertDer[len(st.caCertDer)-1]
+	mainCA := verifMainCADer(st)
 	pub := &m.keys.ec.PublicKey
 	nb := time.Now().Add(-50 * time.Second)
 	m.chains["km-alice"] = envU.keymasterChain("alice", nb, pub)
